@@ -246,7 +246,7 @@ def cases_decode(ctx, reduced):
     hp = ctx.hp()
     if isinstance(hp, Exception):
         return
-    for vec in _vec_lattice(ctx, hp, reduced):
+    for vec in _vec_lattice(ctx, hp, False):
         yield {"vec": vec}
 
 
@@ -361,7 +361,7 @@ def cases_active(ctx, reduced):
             hp = ctx.hp(active=(pos, aspec))
             if isinstance(hp, Exception):
                 continue
-            for t in _t_lattice(ctx, ctx.order(hp), reduced or not single):
+            for t in _t_lattice(ctx, ctx.order(hp), not single):
                 yield dict(base, what="decode", t=t)
             for v in R.members(aspec, reduced=not single):
                 yield dict(base, what="encode", v=v)
